@@ -13,6 +13,7 @@ import (
 	"path/filepath"
 	"strconv"
 	"strings"
+	"sync"
 	"sync/atomic"
 	"time"
 
@@ -298,6 +299,59 @@ logfile = %q
 				break
 			}
 			fmt.Fprintf(w, "%d\n", d.NewMutationID())
+		case "BURST": // BURST <POST|DELETE> <uuid> <inst> <n> <workers> <value prefix>: concurrent single-key requests on key/k<i>
+			n, _ := strconv.Atoi(f[4])
+			workers, _ := strconv.Atoi(f[5])
+			var okN int64
+			var bwg sync.WaitGroup
+			next := int64(-1)
+			for wk := 0; wk < workers; wk++ {
+				bwg.Add(1)
+				go func() {
+					defer bwg.Done()
+					for {
+						i := int(atomic.AddInt64(&next, 1))
+						if i >= n {
+							return
+						}
+						var body io.Reader = http.NoBody
+						if f[1] == "POST" {
+							body = strings.NewReader(fmt.Sprintf("%s-%d", f[6], i))
+						}
+						req, _ := http.NewRequest(f[1], fmt.Sprintf("/api/node/%s/%s/key/k%d", f[2], f[3], i), body)
+						rec := httptest.NewRecorder()
+						server.ServeSingleHTTP(rec, req)
+						if rec.Code == 200 {
+							atomic.AddInt64(&okN, 1)
+						}
+					}
+				}()
+			}
+			bwg.Wait()
+			fmt.Fprintf(w, "ok %d\n", okN)
+		case "TORN": // TORN <uuid> <inst> <n> <own prefix> <parent prefix>: classify key/k<i> at the version
+			n, _ := strconv.Atoi(f[3])
+			own, gone, torn, other, first := 0, 0, 0, 0, -1
+			for i := 0; i < n; i++ {
+				req, _ := http.NewRequest("GET", fmt.Sprintf("/api/node/%s/%s/key/k%d", f[1], f[2], i), http.NoBody)
+				rec := httptest.NewRecorder()
+				server.ServeSingleHTTP(rec, req)
+				b := rec.Body.String()
+				switch {
+				case rec.Code == 404:
+					gone++
+				case rec.Code == 200 && b == fmt.Sprintf("%s-%d", f[4], i):
+					own++
+				case rec.Code == 200 && b == fmt.Sprintf("%s-%d", f[5], i):
+					torn++
+					if first < 0 {
+						first = i
+					}
+				default:
+					other++
+				}
+			}
+			fmt.Fprintf(w, "own=%d gone=%d torn=%d other=%d first=%d\n", own, gone, torn, other, first)
 		case "COPY": // COPY <uuid> <source> <target> <transmit mode>
 			cfg := dvid.NewConfig()
 			cfg.Set("transmit", f[4])
